@@ -1056,7 +1056,7 @@ class Stats:
                        "null_const_ill_conditioned": 0, "null_affine_ill_conditioned": 0,
                        "rank_deficient_cases": 0, "emb_affine_rank_deficient_checked": 0,
                        "ltsa_rankdef_const_observed": 0, "ltsa_rankdef_affine_observed": 0,
-                       "ltsa_rankdef_violated": 0}
+                       "ltsa_rankdef_violated": 0, "ltsa_no_gap_not_compared": 0}
         self.samples = []
         self.heavy = {"heavy_d3": 1, "heavy_d4": 0}   # exact HLLE model runs with 10 / 15 Gram-Schmidt columns
         self.worst_affine = 0.0   # largest affine residual / its tolerance
@@ -1491,6 +1491,13 @@ def evaluate(ctx, exe, mexe, cases, stats):
             continue
         if not model_feasible(c, nb, ctx.quick, stats):
             continue    # exact arithmetic too expensive: the case only feeds the end-to-end clauses
+        if c["meth"] == "ltsa" and not local_gap_ok(res["mats"], len(nb[0]), c["d"]):
+            # a selected local eigenvalue is (numerically) zero: since repair F51 the routine orthogonalises the
+            # arbitrary null vectors against the constant column; the executed model is the loop-free formula
+            # (Lle_Exec.c08_ltsa_run), equal to the routine only where the loop is a no-op.  The case feeds the
+            # null-space clauses (C08_ltsa_gs_fixes) and the end-to-end clauses
+            stats.counts["ltsa_no_gap_not_compared"] += 1
+            continue
         if c["meth"] == "hlle" and not hlle_well_conditioned(c, nb, res["mats"]):
             # some Gram-Schmidt column is (nearly) dependent on the earlier ones: the C++ normalises rounding
             # noise, the local matrix is not determined by the data (outside "manifold-like data")
